@@ -273,6 +273,15 @@ def clause_rollback_arm(prog, rep):
                             dep, _, _ = t.depends_on(y.args[-1]["p"][0])
                             if any(z.dst and z.dst[0] in dep for z in hf):
                                 ok = True
+            # ... or applied by a closure over the returned ids (`ids.iter().filter(|id| storage.mark_..(id).is_err()).for_each(warn)`)
+            for x in reg_calls:
+                if not x.args or "p" not in x.args[0] or not ff:
+                    continue
+                bodies = [q for g in A.closure_args(prog, x) for q in prog.family(g)]
+                if any(K.is_storage_trait_call(y, name) for q in bodies for y in q.live_calls()):
+                    dep, _, _ = f.depends_on(x.args[0]["p"][0])
+                    if any(y.dst and y.dst[0] in dep for y in ff):
+                        ok = True
             rep.check(ok, "rollback-arm", "%s/after-rollback/%s" % (entry, name),
                       "records returned by find_failed_messages_for_retry are marked retryable",
                       "records needing a re-fetch are not marked retryable after rollback", c.loc())
